@@ -263,6 +263,16 @@ Section Proofs.
     exact (proj2 (Linv_step _ _ _ _ HL Hst)).
   Qed.
 
+  (* one at a time: while a caller is inside Do, Close or Connect (holds the mutex), every step
+     that is taken at all -- a write, a read, the transport call of Close / Connect, the release --
+     is taken by that caller; nobody else's transport call can fall between its steps *)
+  Theorem only_holder_steps reqs l s i j a s' : creach reqs l s -> c_owner s = Some i ->
+    cstep s j a s' -> j = i /\ match a with AAcq _ => False | _ => True end.
+  Proof.
+    intros Hr Ho Hst. pose proof (steps_by_holder _ _ _ _ _ _ Hr Hst) as H.
+    destruct a; rewrite Ho in H; inversion H; subst; auto.
+  Qed.
+
   (* whenever the mutex is free, the wire log is exactly the concatenation of the whole request
      frames, in the order in which the mutex was acquired, and the transport decodes it so *)
   Theorem wire_whole_frames_in_lock_order reqs l s : wf_reqs reqs -> creach reqs l s ->
